@@ -597,9 +597,9 @@ impl Value {
     /// Convert value to bit length suitable for a shift operation.
     ///
     /// If the value is negative then an error is returned.
-    fn shift_length(self) -> Result<u64> {
+    fn shift_length(self, addr_mask: u64) -> Result<u64> {
         let value = match self {
-            Value::Generic(value) => value,
+            Value::Generic(value) => value & addr_mask,
             Value::I8(value) if value >= 0 => value as u64,
             Value::U8(value) => u64::from(value),
             Value::I16(value) if value >= 0 => value as u64,
@@ -621,7 +621,7 @@ impl Value {
     ///
     /// This corresponds to the DWARF `DW_OP_shl` operation.
     pub fn shl(self, rhs: Value, addr_mask: u64) -> Result<Value> {
-        let v2 = rhs.shift_length()?;
+        let v2 = rhs.shift_length(addr_mask)?;
         let value = match self {
             Value::Generic(v1) => Value::Generic(if v2 >= u64::from(mask_bit_size(addr_mask)) {
                 0
@@ -652,7 +652,7 @@ impl Value {
     ///
     /// This corresponds to the DWARF `DW_OP_shr` operation.
     pub fn shr(self, rhs: Value, addr_mask: u64) -> Result<Value> {
-        let v2 = rhs.shift_length()?;
+        let v2 = rhs.shift_length(addr_mask)?;
         let value = match self {
             Value::Generic(v1) => Value::Generic(if v2 >= u64::from(mask_bit_size(addr_mask)) {
                 0
@@ -685,7 +685,7 @@ impl Value {
     ///
     /// This corresponds to the DWARF `DW_OP_shra` operation.
     pub fn shra(self, rhs: Value, addr_mask: u64) -> Result<Value> {
-        let v2 = rhs.shift_length()?;
+        let v2 = rhs.shift_length(addr_mask)?;
         let value = match self {
             Value::Generic(v1) => {
                 let v1 = sign_extend(v1, addr_mask);
